@@ -316,7 +316,7 @@ def body(ctx):
     ctx.cov['outside_claim'] = ['values matched by literal / pattern arms (C09, Kani over all primitive values); only presence and order of those arms here', 'form-inconsistent configurations (index rename against a struct-form variant, payload against a unit-form variant)',
                                 'into_existing on enums (C17 finding)', 'runtime values of payloads (the arm structure is what rustc executes)']
     ctx.assumptions = ['oracle = property statement (EnumOracle.variant_arm), written from the README rules; decoder is structural', 'predicted == real tokens per path']
-    expander.sweep(ctx, ['enum'], per_path)
+    expander.sweep(ctx, ['enum'], per_path, judge_native=True)
 
 
 if __name__ == '__main__':
